@@ -173,7 +173,8 @@ void __wrap___assert_fail(const char *expr, const char *file, unsigned line, con
   if (g_assert_jmp_armed) { g_assert_jmp_armed = 0; longjmp(g_assert_jmp, 1); }
   // not recoverable: report with the op being executed and die; the runner restarts the worker
   std::string base = g_last_assert.file; size_t sl = base.rfind('/'); if (sl != std::string::npos) base = base.substr(sl + 1);
-  std::string cls = "assert:" + base + ":" + tok(g_last_assert.func) + ":" + tok(g_last_assert.expr) + "@" + (g_run && !g_run->curop.empty() ? g_run->curop : "-");
+  std::string fn = g_last_assert.func; size_t par = fn.find('('); if (par != std::string::npos) fn = fn.substr(0, par); size_t sp = fn.find_last_of(" *"); if (sp != std::string::npos) fn = fn.substr(sp + 1);
+  std::string cls = "assert:" + base + ":" + tok(fn) + ":" + tok(g_last_assert.expr) + "@" + (g_run && !g_run->curop.empty() ? g_run->curop : "-");
   char d[512]; snprintf(d, sizeof d, "%s:%u %s: Assertion `%s' failed (op #%d)", file, line, func, expr, g_run ? g_run->curopidx : -1);
   emit_viol(g_cur_seed, cls, d);
   _exit(79);
@@ -229,9 +230,8 @@ static int do_run(Machine &m, const Plan &p, bool verbose, WorkerSets &ws, bool 
   alarm(g_watchdog_s);
   try { m.run(p, r); } catch (RunAbort &) {}
   alarm(0);
-  bool leak = false;
   if (leakcheck && !r.violated && !r.cut && __lsan_do_recoverable_leak_check) {
-    if (__lsan_do_recoverable_leak_check()) { leak = true; r.violated = true; r.vclass = "leak@run"; r.vdetail = "LeakSanitizer reported a leak at the end of the run (all replicas destroyed)"; }
+    if (__lsan_do_recoverable_leak_check()) { r.violated = true; r.vclass = "leak@run"; r.vdetail = "LeakSanitizer reported a leak at the end of the run (all replicas destroyed)"; }
   }
   if (r.violated) emit_viol(p.seed, r.vclass, r.vdetail);
   if (r.cut) { printf("CUT %llu %s | %s\n", (unsigned long long)p.seed, r.cutby.c_str(), r.vdetail.c_str()); }
@@ -243,7 +243,6 @@ static int do_run(Machine &m, const Plan &p, bool verbose, WorkerSets &ws, bool 
          (unsigned long long)r.nevents, r.violated ? 1 : 0, r.cut ? r.cutby.c_str() : "-", st.c_str());
   fflush(stdout);
   g_run = nullptr;
-  (void)leak;
   return (r.violated || r.cut) ? 1 : 0;
 }
 
@@ -282,17 +281,29 @@ int worker_main(int argc, char **argv, Machine &m) {
     int pclass = argc > 2 ? atoi(argv[2]) : 0;
     m.proc_setup(pclass, nullptr);
     char line[512];
-    unsigned nruns = 0;
+    // LeakSanitizer's stop-the-world check costs ~0.2 s on a grown heap: it runs every `leak_every` runs; when it fires, the
+    // runner re-runs the suspect seeds one by one with HWSIM_LEAK_EVERY=1 to attribute the leak to a seed
+    unsigned leak_every = getenv("HWSIM_LEAK_EVERY") ? (unsigned)atoi(getenv("HWSIM_LEAK_EVERY")) : 32;
+    std::vector<unsigned long long> since;
+    bool recycle = false;
+    auto batch_check = [&]() {
+      if (!leakcheck || leak_every <= 1 || since.empty() || !__lsan_do_recoverable_leak_check) { since.clear(); return; }
+      if (__lsan_do_recoverable_leak_check()) { printf("LEAK"); for (auto sd : since) printf(" %llu", sd); printf("\n"); fflush(stdout); recycle = true; }
+      since.clear();
+    };
     while (fgets(line, sizeof line, stdin)) {
       if (!strncmp(line, "QUIT", 4)) break;
       unsigned long long seed; char prop[32], tier[32];
       if (sscanf(line, "RUN %llu %31s %31s", &seed, prop, tier) != 3) continue;
       Plan p = m.gen(seed, prop, tier, pclass);
-      bool lc = leakcheck;
-      int bad = do_run(m, p, false, ws, lc);
-      nruns++;
-      if (bad) { printf("RECYCLE\n"); fflush(stdout); break; }  // state after a violated/cut run is not trusted
+      int bad = do_run(m, p, false, ws, leakcheck && leak_every <= 1);
+      if (bad) { printf("RECYCLE\n"); fflush(stdout); return 0; }  // state after a violated/cut run is not trusted
+      since.push_back(seed);
+      if (since.size() >= leak_every) batch_check();
+      if (recycle) { printf("RECYCLE\n"); fflush(stdout); return 0; }
+      printf("READY\n"); fflush(stdout);
     }
+    batch_check();
     fflush(stdout);
     return 0;
   }
